@@ -30,6 +30,8 @@ def main(argv):
                 mod.run(program, chk)
             except progmod.AnchorMissing as e:
                 chk.anchor_missing("anchor", str(e))
+            except (SyntaxError, ImportError, NameError):
+                raise  # a defect of the checker itself: never "undecided"
             except Exception as e:
                 tb = traceback.extract_tb(e.__traceback__)
                 where = next((f"{os.path.basename(fr.filename)}:{fr.name}" for fr in reversed(tb) if "/props/" in fr.filename), "?")
